@@ -103,6 +103,11 @@ pub struct Db {
     pub errors: BTreeMap<String, Answer>,
     /// answer "no data" as `C` (true) or as `D` key-not-found, like IRRd 4 (false)
     pub empty_as_c: bool,
+    /// (epoch, key, answer): like `errors`, but only while the server's epoch (set by the harness
+    /// before each member of a sequence of evaluations) has that value - an error injected for
+    /// one query of one member of the sequence
+    #[serde(default)]
+    pub epoch_errors: Vec<(u8, String, Answer)>,
 }
 
 impl Db {
@@ -193,6 +198,7 @@ impl Db {
 pub struct FakeIrrd {
     pub port: u16,
     pub log: Arc<Mutex<Vec<String>>>,
+    epoch: Arc<std::sync::atomic::AtomicUsize>,
     stop: Arc<AtomicBool>,
     thread: Option<JoinHandle<()>>,
 }
@@ -205,21 +211,23 @@ impl FakeIrrd {
     /// serve `db` on an ephemeral loopback port; `chunk` > 0 writes responses in pieces of that
     /// many bytes (arbitrary TCP segmentation)
     pub fn start(db: Db, chunk: usize) -> std::io::Result<Self> {
-        let listener = TcpListener::bind("127.0.0.1:0")?;
+        let listener = crate::net::bind_local_std()?;
         let port = listener.local_addr()?.port();
         listener.set_nonblocking(true)?;
         let log = Arc::new(Mutex::new(Vec::new()));
         let stop = Arc::new(AtomicBool::new(false));
         let (log2, stop2) = (log.clone(), stop.clone());
         let db = Arc::new(db);
+        let epoch = Arc::new(std::sync::atomic::AtomicUsize::new(usize::MAX));
+        let epoch2 = epoch.clone();
         let thread = std::thread::spawn(move || {
             let mut workers = Vec::new();
             while !stop2.load(Ordering::SeqCst) {
                 match listener.accept() {
                     Ok((stream, _)) => {
                         let _ = stream.set_nonblocking(false);
-                        let (db, log) = (db.clone(), log2.clone());
-                        workers.push(std::thread::spawn(move || serve(stream, &db, &log, chunk)));
+                        let (db, log, epoch) = (db.clone(), log2.clone(), epoch2.clone());
+                        workers.push(std::thread::spawn(move || serve(stream, &db, &log, chunk, &epoch)));
                     }
                     Err(e) if e.kind() == std::io::ErrorKind::WouldBlock => {
                         std::thread::sleep(std::time::Duration::from_micros(300));
@@ -234,9 +242,15 @@ impl FakeIrrd {
         Ok(Self {
             port,
             log,
+            epoch,
             stop,
             thread: Some(thread),
         })
+    }
+
+    /// which member of a sequence of evaluations is running now (selects `Db::epoch_errors`)
+    pub fn set_epoch(&self, epoch: usize) {
+        self.epoch.store(epoch, Ordering::SeqCst);
     }
 
     pub fn queries(&self) -> Vec<String> {
@@ -253,7 +267,14 @@ impl Drop for FakeIrrd {
     }
 }
 
-fn answer(db: &Db, line: &str) -> Option<Vec<u8>> {
+fn answer(db: &Db, line: &str, epoch: usize) -> Option<Vec<u8>> {
+    let injected = |key: &str| -> Option<Answer> {
+        db.epoch_errors
+            .iter()
+            .find(|(e, k, _)| *e as usize == epoch && k == key)
+            .map(|(_, _, a)| *a)
+            .or_else(|| db.errors.get(key).copied())
+    };
     let no_data = || -> Vec<u8> {
         if db.empty_as_c {
             b"C\n".to_vec()
@@ -277,7 +298,7 @@ fn answer(db: &Db, line: &str) -> Option<Vec<u8>> {
     }
     if let Some(arg) = line.strip_prefix("!i") {
         let name = arg.strip_suffix(",1").unwrap_or(arg).to_ascii_uppercase();
-        if let Some(e) = db.errors.get(&name).and_then(|a| err(*a)) {
+        if let Some(e) = injected(&name).and_then(err) {
             return Some(e);
         }
         if let Some(members) = db.as_set_members(&name) {
@@ -302,7 +323,7 @@ fn answer(db: &Db, line: &str) -> Option<Vec<u8>> {
     for (cmd, v6) in [("!g", false), ("!6", true)] {
         if let Some(arg) = line.strip_prefix(cmd) {
             let key = format!("{}/{}", arg.to_ascii_uppercase(), if v6 { "6" } else { "g" });
-            if let Some(e) = db.errors.get(&key).and_then(|a| err(*a)) {
+            if let Some(e) = injected(&key).and_then(err) {
                 return Some(e);
             }
             let num = arg
@@ -318,7 +339,7 @@ fn answer(db: &Db, line: &str) -> Option<Vec<u8>> {
     }
     if let Some(arg) = line.strip_prefix("!mfilter-set,") {
         let name = arg.to_ascii_uppercase();
-        if let Some(e) = db.errors.get(&name).and_then(|a| err(*a)) {
+        if let Some(e) = injected(&name).and_then(err) {
             return Some(e);
         }
         return Some(match db.filter_sets.get(&name) {
@@ -341,20 +362,28 @@ fn answer(db: &Db, line: &str) -> Option<Vec<u8>> {
     Some(b"F unsupported query\n".to_vec())
 }
 
-fn serve(stream: TcpStream, db: &Db, log: &Mutex<Vec<String>>, chunk: usize) {
+fn serve(
+    stream: TcpStream,
+    db: &Db,
+    log: &Mutex<Vec<String>>,
+    chunk: usize,
+    epoch: &std::sync::atomic::AtomicUsize,
+) {
     let Ok(mut out) = stream.try_clone() else {
         return;
     };
     let _ = out.set_nodelay(true);
     let reader = BufReader::new(stream);
+    let mut peer_closed_first = true;
     for line in reader.lines() {
         let Ok(line) = line else { break };
         let line = line.trim_end().to_string();
         if line == "!q" {
+            peer_closed_first = false;
             break;
         }
         log.lock().unwrap().push(line.clone());
-        if let Some(resp) = answer(db, &line) {
+        if let Some(resp) = answer(db, &line, epoch.load(Ordering::SeqCst)) {
             let ok = if chunk == 0 {
                 out.write_all(&resp).is_ok()
             } else {
@@ -366,6 +395,22 @@ fn serve(stream: TcpStream, db: &Db, log: &Mutex<Vec<String>>, chunk: usize) {
             if !ok {
                 break;
             }
+        }
+    }
+    if peer_closed_first {
+        // the client has closed (or died): answer its FIN with a reset so that neither side keeps
+        // a TIME_WAIT socket (the checks open tens of thousands of connections)
+        use std::os::fd::AsRawFd;
+        let l = libc::linger { l_onoff: 1, l_linger: 0 };
+        // SAFETY: plain setsockopt on a socket this function owns
+        unsafe {
+            libc::setsockopt(
+                out.as_raw_fd(),
+                libc::SOL_SOCKET,
+                libc::SO_LINGER,
+                std::ptr::addr_of!(l).cast(),
+                std::mem::size_of::<libc::linger>() as libc::socklen_t,
+            );
         }
     }
 }
